@@ -228,7 +228,8 @@ def check(spec) -> Outcome:
 
     env, err = lib(Envelope, core_track(data))
     if not err:
-        for k_, a_, ok in ((wrong, aad, False), (key, aad, True), (key, (aad or b"") + b"\x01", False), (key, aad, True)):
+        for k_, a_, ok in ((wrong, aad, False), (key, aad, True), (key, (aad or b"") + b"\x01", False), (key, (aad or b"") + b"\x01", False),
+                           (key, aad, True), (wrong, aad, False), (wrong, aad, False)):  # incl. the same rejected call made twice in a row
             got, err = lib(env.decrypt, k_, aad=a_)
             if ok and (err or got != payload):
                 out.fail("mismatch|decrypt-after-rejection", "a correct decrypt() after a rejected one on the same Envelope object "
